@@ -1,0 +1,13 @@
+//go:build verif
+
+package kfake
+
+// VerifFS and VerifFile expose the injectable file system interfaces to the
+// verification harness (crash simulation). Built only with the verif tag.
+type (
+	VerifFS   = fs
+	VerifFile = file
+)
+
+// VerifWithFS injects a file system for persistence.
+func VerifWithFS(f VerifFS) Opt { return withFS(f) }
